@@ -1,10 +1,13 @@
 """C10 — PDR verdicts are sound and definite, with genuine counterexamples."""
 HANDLER = "C10"
-RULE = ("generated bit-vector transition systems with at most 2^10 state valuations and at most 3 input bits, fifteen families "
+RULE = ("generated bit-vector transition systems with at most 2^10 state valuations and at most 3 input bits, sixteen families "
         "(counters with enable/wrap/saturation/flags, shift registers with an input constraint, lock-step register pairs, one-hot rings, "
         "arithmetic progressions x' = x + c on 3..5 bits (c constant or chosen among 2/4 constants by an input; arbitrary reset and bad values: "
         "the family that drives fix_gen_cube's restore loop with several literals, histograms `trace_restore_loop`, `restore_core_2+_by_family`; "
         "it also has a stream of its own, `restore`, with generalisation on only), "
+        "systems of the encoding properties' generator crate::c04::mcgen::gen_mc_sys (about a tenth: shared init/next/bad signals, init-dependency "
+        "chains, delay registers, NAMED signals - the names travel with the case, field `named` -, constant states, bare inputs/literals as bad "
+        "states; <= 6+3 state bits, <= 3 input bits, no arrays; histograms `mcgen_features`, `mcgen_named_signals`), "
         "explicit FSM tables, random next-state logic, states without init / without next / constant, init reading an earlier state, "
         "init reading an input (unsafe ones and SAFE ones whose state projection is spuriously unsafe), bad states that are dead ends under a "
         "state constraint, relational init (a state whose init reads a state without init), bad-state expressions reading an input that the "
